@@ -18,6 +18,8 @@ MENUS = collections.OrderedDict([
     ('etime', [7200, 0, 1800, 3600, 10800, 86400, 93600]),
     ('south', [True]),
     ('explicit', [False]),
+    # a zone whose standard time is called GMT / UTC (offset 0, so the 'GMT+h is ahead' reading does not enter)
+    ('stdname', ['GMT', 'UTC']),
 ])
 
 YEARS = (2023, 2024, 2025)
@@ -29,10 +31,13 @@ def make_spec(sh):
     so, sv = f['offsets']
     if not f['explicit']:
         sv = 3600                                 # POSIX default: one hour ahead of standard time
+    name = f.get('stdname', 'AAA')
+    if name != 'AAA':
+        so = 0
     if f['south']:
-        p = Posix('AAA', so, 'BBB', so + sv, f['erule'], f['etime'], f['srule'], f['stime'])
+        p = Posix(name, so, 'BBB', so + sv, f['erule'], f['etime'], f['srule'], f['stime'])
     else:
-        p = Posix('AAA', so, 'BBB', so + sv, f['srule'], f['stime'], f['erule'], f['etime'])
+        p = Posix(name, so, 'BBB', so + sv, f['srule'], f['stime'], f['erule'], f['etime'])
     p.explicit = f['explicit']
     return p
 
